@@ -31,9 +31,9 @@ def handle (line : String) : String :=
           match im.splitOn ":" with
           | [k, h] =>
             match k.toNat?, ofHex h with
-            | some at, some info' =>
+            | some mutAt, some info' =>
               if info'.length != info.length then "bad-op"
-              else showReads (readManyMut (hmac a prk) (newReader a info) reads at info')
+              else showReads (readManyMut (hmac a prk) (newReader a info) reads mutAt info')
             | _, _ => "bad-op"
           | _ => "bad-op"
     | _, _, _, _ => "bad-op"
